@@ -295,6 +295,10 @@ func init() {
 		return nil
 	})
 	H("Pause", func(fr *frame, args []value) value { return nil })
+	H("SymbolicTxns", func(fr *frame, args []value) value {
+		fr.i.path.sched.txnPoints = true
+		return nil
+	})
 	H("SymbolicLocks", func(fr *frame, args []value) value {
 		fr.i.path.sched.lockPoints = true
 		return nil
